@@ -35,23 +35,22 @@ def _eval_bytes(x, subst):
 
 
 def repo_struct_formats():
+    """format strings found as literals in the repo source, plus the ones construct's Int32ul/Int64ul/Byte use;
+    found by scanning the source (no repo module is imported here)"""
+    import ast
+    import glob
     fmts = {'<Q32sQIIQ', '<QQQQ', '<L', '<Q', '>B', '<I', '<H', '>H', '>Q', '<q', '<i', '<h', '<b', '>I', '<4s2xB?', '<l'}
-    try:
-        import pykdebugparser.kevent as kv
-        import pykdebugparser.kd_buf_parser as kb
-        import pykdebugparser.os_log_event as ol
-        import construct
-        for m in (kv, kb, ol):
-            for v in vars(m).values():
-                if isinstance(v, str) and v[:1] in '<>' and len(v) < 32:
-                    try:
-                        struct.calcsize(v); fmts.add(v)
-                    except struct.error:
-                        pass
-                if isinstance(v, construct.FormatField):
-                    fmts.add(v.fmtstr)
-    except Exception:
-        pass
+    for fn in glob.glob('/repo/pykdebugparser/**/*.py', recursive=True):
+        try:
+            tree = ast.parse(open(fn).read())
+        except (OSError, SyntaxError):
+            continue
+        for n in ast.walk(tree):
+            if isinstance(n, ast.Constant) and isinstance(n.value, str) and n.value[:1] in '<>' and 1 < len(n.value) < 32:
+                try:
+                    struct.calcsize(n.value); fmts.add(n.value)
+                except struct.error:
+                    pass
     return sorted(fmts)
 
 
